@@ -1,6 +1,7 @@
 (* C10 - Client calls fail promptly, never hang, when the connection fails.
    Property theorems only (proved in Clnt/ClntProofs.v and Recv/RecvProofs.v). *)
 From Coq Require Import NArith List Bool.
+From V9 Require Shape.ShapeLib Shape.Params.
 From V9 Require Import Lib.GoSem Lib.Bytes Gen.Consts Clnt.Model Clnt.ClntProofs Recv.Recv Recv.RecvProofs.
 Import ListNotations.
 
@@ -72,3 +73,12 @@ Example C10_nonvacuous :
      LHandoff 0; LDeliver; LTake 0; LDeliver; LTake 1; LClose; LFree 0; LFree 1]%N = Some s /\
     map c_res (callers s) = [Some RConnErr; Some RConnErr] /\ map c_pc (callers s) = [CDone; CDone] /\ reader s = RdEnd.
 Proof. eexists. vm_compute. repeat split. Qed.
+
+
+(* ---- structural parameters read off the CURRENT source (Gen/Shape.v): Rpcnb tests clnt.err and links under the
+   client lock and hands over afterwards; send tests clnt.err and copies the packet under the lock before it
+   writes; recv publishes the error before it closes done and tells the callers after; Rpc recycles the request
+   only after it was told ---- *)
+Theorem C10_source_failure_order : ShapeLib.client_failure_order = true.
+Proof. exact Params.client_failure_order_ok. Qed.
+Print Assumptions C10_source_failure_order.
